@@ -1298,11 +1298,13 @@ pub fn generate(kind: &str, seed: u64, count: usize, out: &str) {
           steps.push(json!({"op": "build", "dst": r, "tree": t}));
           steps.extend(obs_all(r));
           steps.push(stream(r, true, true));
+          steps.push(stream(r, true, false));
         }
         let ch: Vec<Value> = (1..=n).map(|r| json!({"k": "reg", "r": r})).collect();
         steps.push(json!({"op": "build", "dst": 0, "tree": {"k": "concat", "mode": "boxed", "ch": ch}}));
         steps.extend(obs_all(0));
         steps.push(stream(0, true, true));
+        steps.push(stream(0, true, false));
         steps.push(json!({"op": "law", "law": "concat_children", "r": 0,
                           "children": (1..=n).collect::<Vec<u64>>()}));
       }
